@@ -34,6 +34,7 @@ def cases(draw):
                 lines.append(f"{nid};{cid};0;0;{draw(st.integers(0, 25))};{draw(gen.nice_text)}")
                 for vt in draw(st.lists(st.sampled_from([0, 1, 24, 25]), max_size=2, unique=True)):
                     lines.append(f"{nid};{cid};1;0;{vt};{draw(gen.nice_text)}")
+            lines.append(f"{nid};255;3;0;12;v{draw(st.sampled_from(['é', '雪', '😀', 'ß–°']))}{draw(st.integers(0, 9))}")  # always some multi-byte text
             if draw(st.booleans()):
                 lines.append(f"{nid};255;3;0;11;{draw(gen.nice_text)}")
             if draw(st.booleans()):
